@@ -26,12 +26,14 @@
 #include <cfloat>
 #include <csetjmp>
 #include <functional>
+#include <memory>
+#include <omp.h>
 
 using namespace verif;
 typedef long double ld;
 
-static sigjmp_buf g_jb;
-static int g_armed = 0;
+static thread_local sigjmp_buf g_jb;
+static thread_local int g_armed = 0;
 extern "C" void abort(void) noexcept {
   if (g_armed) {
     g_armed = 0;
@@ -125,11 +127,13 @@ struct RefCDF {
 
 // ---------------------------------------------------------------- the driver
 struct Case {
-  std::string name;                          // stable, goes into violation keys
+  std::string name;                          // family + parameters, identifies the case (replay, details)
+  std::string family;                        // stable, goes into violation keys
   std::string regime;                        // e.g. T-inside-table
   std::function< double(RandomGenerator &) > draw;
   double numin, numax;                       // ionizing range of the spectrum (Hz)
-  std::function< ld(double) > cdf_lo, cdf_hi; // admissible u interval for a returned nu
+  std::function< ld(double) > cdf_lo, cdf_hi; // admissible u interval for a returned nu (resolution of the table)
+  std::function< ld(double) > slack;          // derived error bound of the tabulated nodes, added on both sides
   std::vector< double > edges;               // table CDF values (u alphabet only)
   unsigned draws = 1;                        // random numbers one call consumes
   std::string tol_text;
@@ -138,6 +142,7 @@ struct Case {
 struct Totals {
   uint64_t evals = 0, nontrivial = 0, near = 0, range_bad = 0, mono_bad = 0, cdf_bad = 0;
   double max_excess = 0.; // largest distance outside the admissible interval / its width
+  double max_slack_used = 0.; // accepted cases: largest distance outside the resolution interval / slack
 };
 
 static std::vector< double > u_alphabet(bool thorough, const std::vector< double > &edges, long seed) {
@@ -172,7 +177,7 @@ static void run_case(const Case &c, const Args &A, Result &R, Totals &tot, const
   }
   RandomGenerator rg(42);
   double prev_nu = -1., prev_u = -1.;
-  const std::string tag = c.name + ":" + c.regime;
+  const std::string tag = c.family + ":" + c.regime;
   for (double u : us) {
     feed(rg, u);
     double nu = 0.;
@@ -189,7 +194,7 @@ static void run_case(const Case &c, const Args &A, Result &R, Totals &tot, const
                                 c.regime.c_str(), u);
     if (only_u)
       printf("  u=%.17g -> nu=%.17g Hz (range [%.17g, %.17g]), admissible u in [%.17Lg, %.17Lg]\n", u, nu, c.numin, c.numax,
-             c.cdf_lo(nu), c.cdf_hi(nu));
+             c.cdf_lo(nu) - c.slack(nu), c.cdf_hi(nu) + c.slack(nu));
     if (consumed(rg) != c.draws)
       R.violation("C18:sampler:draw-count:" + tag, fmt("%u random numbers consumed, expected %u", consumed(rg), c.draws), rep);
     if (!std::isfinite(nu)) {
@@ -200,20 +205,22 @@ static void run_case(const Case &c, const Args &A, Result &R, Totals &tot, const
     if (nu < c.numin * (1. - 4. * DBL_EPSILON) || nu > c.numax * (1. + 4. * DBL_EPSILON)) {
       ++tot.range_bad;
       R.violation("C18:sampler:range:" + tag + (nu < c.numin ? ":below-min" : ":above-max"),
-                  fmt("frequency %.17g Hz for u=%.17g is outside the range [%.17g, %.17g] Hz of the spectrum", nu, u, c.numin,
-                      c.numax),
+                  fmt("%s: frequency %.17g Hz for u=%.17g is outside the range [%.17g, %.17g] Hz of the spectrum", c.name.c_str(), nu, u,
+                      c.numin, c.numax),
                   rep);
     }
     // monotone: 64 eps slack (pow(10, log10) round trip of the Planck table)
     if (prev_nu >= 0. && nu < prev_nu * (1. - 64. * DBL_EPSILON)) {
       ++tot.mono_bad;
       R.violation("C18:sampler:monotone:" + tag,
-                  fmt("frequency falls from %.17g Hz (u=%.17g) to %.17g Hz (u=%.17g)", prev_nu, prev_u, nu, u), rep);
+                  fmt("%s: frequency falls from %.17g Hz (u=%.17g) to %.17g Hz (u=%.17g)", c.name.c_str(), prev_nu, prev_u, nu, u), rep);
     }
     prev_nu = nu;
     prev_u = u;
     // cumulative distribution
-    const ld lo = c.cdf_lo(nu), hi = c.cdf_hi(nu);
+    const ld sl = c.slack(nu);
+    const ld clo = c.cdf_lo(nu), chi = c.cdf_hi(nu);
+    const ld lo = clo - sl, hi = chi + sl;
     const ld width = std::max(hi - lo, (ld)1e-300);
     if (hi > lo)
       ++tot.nontrivial;
@@ -222,28 +229,39 @@ static void run_case(const Case &c, const Args &A, Result &R, Totals &tot, const
       const ld ex = ((ld)u < lo ? lo - u : u - hi) / width;
       tot.max_excess = std::max(tot.max_excess, (double)ex);
       R.violation("C18:sampler:cdf:" + tag,
-                  fmt("u=%.17g gives nu=%.17g Hz, but the reference distribution admits this frequency only for u in [%.17Lg, %.17Lg] (%s)",
-                      u, nu, lo, hi, c.tol_text.c_str()),
+                  fmt("%s: u=%.17g gives nu=%.17g Hz, but the reference distribution admits this frequency only for u in [%.17Lg, %.17Lg] (%s)",
+                      c.name.c_str(), u, nu, lo, hi, c.tol_text.c_str()),
                   rep);
     } else {
       // near miss: within 10% of the interval width from an end does not say
       // much for an interval test; count u within 0.1 x (slack part) instead
-      const ld d = std::min((ld)u - lo, hi - (ld)u);
-      if (d < 0.01L * width)
-        ++tot.near;
+      const ld out = std::max(clo - (ld)u, (ld)u - chi); // > 0: only admitted thanks to the slack
+      if (out > 0 && sl > 0) {
+        tot.max_slack_used = std::max(tot.max_slack_used, (double)(out / sl));
+        if (out > 0.1L * sl)
+          ++tot.near;
+      }
     }
   }
-  if (tot.evals % 7 == 0 || R.samples.size() < 3)
+  if (!only_u)
     R.sample(fmt("{\"spectrum\": \"%s\", \"regime\": \"%s\", \"u_values\": %zu, \"last_u\": %.17g, \"last_nu_Hz\": %.17g}",
                  c.name.c_str(), c.regime.c_str(), us.size(), prev_u, prev_nu));
 }
 
 // ------------------------------------------------------------------ builders
 static c18::Tables g_tab;
+/// neutral H / He ground state cross section (one shell, no inner edge: the
+/// 1996 fit over the whole range), long double version of c18::fit96
 static ld sigma_ref(int Z, int N, ld nu) {
-  static const c18::quad cq = c18::q("1.6021766208e-19") / c18::q("6.626070040e-34");
-  const c18::ARow &r = g_tab.A.at({Z, N})[0]; // H0 and He0 have a single shell
-  return (ld)c18::shell_cross_section(g_tab, r, (c18::quad)nu / cq).v;
+  static const ld cq = (ld)(c18::q("1.6021766208e-19") / c18::q("6.626070040e-34"));
+  const c18::BRow &r = g_tab.B.at({Z, N});
+  const ld E = nu / cq;
+  if (E < (ld)r.Eth)
+    return 0.L;
+  const ld x = E / (ld)r.E0 - (ld)r.y0;
+  const ld y = sqrtl(x * x + (ld)r.y1 * (ld)r.y1);
+  return (ld)r.s0 * 1.e-22L * ((x - 1) * (x - 1) + (ld)r.yw * (ld)r.yw) * powl(y, 0.5L * (ld)r.P - 5.5L) *
+         powl(1 + sqrtl(y / (ld)r.ya), -(ld)r.P);
 }
 
 struct Owned {
@@ -266,6 +284,7 @@ static Case planck_case(double T, Owned &own) {
   const ld dnode = 2.L * ref2->trapezoid_node_error() + 1e-13L;
   Case c;
   c.name = fmt("planck-%gK", T);
+  c.family = "planck";
   c.regime = "table";
   c.draw = [sp](RandomGenerator &rg) { return sp->get_random_frequency(rg, 0.); };
   c.numin = NU_OUT;
@@ -279,8 +298,9 @@ static Case planck_case(double T, Owned &own) {
     i = std::max(0, std::min(ref->nb - 1, i));
     const int j = upper ? i + 1 : i;
     const ld cst = fabsl(ref->cum[j] / ref->total - ref2->cum[j] / ref2->total);
-    return ref->cum[j] / ref->total + (upper ? 1 : -1) * (dnode + cst);
+    return ref->cum[j] / ref->total + (upper ? 1 : -1) * cst;
   };
+  c.slack = [dnode](double) { return dnode; };
   c.cdf_lo = [bounds](double nu) { return bounds(nu, false); };
   c.cdf_hi = [bounds](double nu) { return bounds(nu, true); };
   c.edges.assign(sp->_cumulative_distribution.begin() + 1, sp->_cumulative_distribution.end());
@@ -311,6 +331,7 @@ static Case lyc_case(const std::shared_ptr< SPEC > &sp, const char *nm, int Z, d
   const ld dnode = 2.L * ref->trapezoid_node_error() + cross / ref->total + 1e-13L;
   Case c;
   c.name = fmt("%s-%.17gK", nm, T);
+  c.family = nm;
   c.regime = T < Ttab.front() ? "T-below-table" : (T > Ttab.back() ? "T-above-table" : "T-inside-table");
   c.draw = [sp, T](RandomGenerator &rg) { return sp->get_random_frequency(rg, T); };
   c.numin = numin;
@@ -318,8 +339,9 @@ static Case lyc_case(const std::shared_ptr< SPEC > &sp, const char *nm, int Z, d
   // the sampler returns table nodes (lower edge of the bin that contains the
   // inverse), linearly blended between two neighbouring temperature tables:
   // the exact inverse lies within [nu - dnu, nu + 2 dnu]
-  c.cdf_lo = [ref, dnu, dnode](double nu) { return (*ref)((ld)nu - dnu) - dnode; };
-  c.cdf_hi = [ref, dnu, dnode](double nu) { return (*ref)((ld)nu + 2.L * dnu) + dnode; };
+  c.cdf_lo = [ref, dnu](double nu) { return (*ref)((ld)nu - dnu); };
+  c.cdf_hi = [ref, dnu](double nu) { return (*ref)((ld)nu + 2.L * dnu); };
+  c.slack = [dnode](double) { return dnode; };
   size_t iT = 0;
   while (iT + 2 < Ttab.size() && Ttab[iT + 1] < T)
     ++iT;
@@ -354,7 +376,7 @@ static Case two_photon_case(Owned &own) {
   ref->build();
   const ld dnode = 2.L * ref->trapezoid_node_error() + 1e-13L;
   Case c;
-  c.name = "he-two-photon";
+  c.name = c.family = "he-two-photon";
   c.regime = "table";
   c.draw = [sp](RandomGenerator &rg) { return sp->get_random_frequency(rg, 8000.); };
   c.numin = NU_OUT;
@@ -362,8 +384,9 @@ static Case two_photon_case(Owned &own) {
   auto bounds = [ref, dnode](double nu, bool upper) -> ld {
     int i = (int)floorl(((ld)nu - ref->lo) / (ref->hi - ref->lo) * ref->nb);
     i = std::max(0, std::min(ref->nb - 1, i));
-    return ref->cum[upper ? i + 1 : i] / ref->total + (upper ? 1 : -1) * dnode;
+    return ref->cum[upper ? i + 1 : i] / ref->total;
   };
+  c.slack = [dnode](double) { return dnode; };
   c.cdf_lo = [bounds](double nu) { return bounds(nu, false); };
   c.cdf_hi = [bounds](double nu) { return bounds(nu, true); };
   c.edges.assign(sp->_cumulative_distribution.begin() + 1, sp->_cumulative_distribution.end());
@@ -398,20 +421,23 @@ static Case masked_case(bool thorough, Owned &own) {
   const ld surviving = ref->total / unm->total; // fraction of photons that pass the mask
   // Monte Carlo construction of the table with nsamp samples: DKW bound on the
   // empirical CDF at confidence 1 - 1e-9, propagated through mask (total
-  // variation 1) and normalisation: 8 D / surviving; mask evaluated at the
+  // variation 1: |sum (c_j/N - p_j) m_j| <= 2 D by Abel summation) and
+  // normalisation (another 2 D): 4 D / surviving; mask evaluated at the
   // lower bin edge instead of in the bin: (1/(nbins-1)) / surviving
   const ld D = sqrtl(logl(2.L / 1e-9L) / (2.L * nsamp));
-  const ld slack = 8.L * D / surviving + (1.L / (nbins - 1)) / surviving;
+  const ld slack = 4.L * D / surviving + (1.L / (nbins - 1)) / surviving;
   const ld dnu = (hi - lo) / (nbins - 1);
   Case c;
   c.name = fmt("masked-planck-%gK-linear", T);
+  c.family = "masked";
   c.regime = "table";
   c.draw = [sp](RandomGenerator &rg) { return sp->get_random_frequency(rg, 0.); };
   c.numin = NU_TAB;
   c.numax = 4. * NU_TAB;
   // histogram bin i is stored at node i: one bin of shift plus interpolation
-  c.cdf_lo = [ref, dnu, slack](double nu) { return (*ref)((ld)nu - dnu) - slack; };
-  c.cdf_hi = [ref, dnu, slack](double nu) { return (*ref)((ld)nu + 2.L * dnu) + slack; };
+  c.cdf_lo = [ref, dnu](double nu) { return (*ref)((ld)nu - dnu); };
+  c.cdf_hi = [ref, dnu](double nu) { return (*ref)((ld)nu + 2.L * dnu); };
+  c.slack = [slack](double) { return slack; };
   c.edges.assign(sp->_cumulative_distribution.begin(), sp->_cumulative_distribution.end());
   c.tol_text = fmt("[CDF(nu - 1 bin), CDF(nu + 2 bins)] +- (Monte Carlo table, %lu samples: %.3Lg)", (unsigned long)nsamp, slack);
   return c;
@@ -421,13 +447,14 @@ static Case uniform_case(Owned &own) {
   auto sp = std::make_shared< UniformPhotonSourceSpectrum >();
   own.keep.push_back(sp);
   Case c;
-  c.name = "uniform";
+  c.name = c.family = "uniform";
   c.regime = "closed-form";
   c.draw = [sp](RandomGenerator &rg) { return sp->get_random_frequency(rg, 0.); };
   c.numin = NU_TAB;
   c.numax = 4. * NU_TAB;
-  c.cdf_lo = [](double nu) { return ((ld)nu / NU_TAB - 1.L) / 3.L - 8.L * DBL_EPSILON; };
-  c.cdf_hi = [](double nu) { return ((ld)nu / NU_TAB - 1.L) / 3.L + 8.L * DBL_EPSILON; };
+  c.cdf_lo = [](double nu) { return ((ld)nu / NU_TAB - 1.L) / 3.L; };
+  c.cdf_hi = [](double nu) { return ((ld)nu / NU_TAB - 1.L) / 3.L; };
+  c.slack = [](double) { return 8.L * DBL_EPSILON; };
   c.tol_text = "8 eps";
   return c;
 }
@@ -437,6 +464,7 @@ static Case mono_case(double nu0, Owned &own) {
   own.keep.push_back(sp);
   Case c;
   c.name = fmt("monochromatic-%gHz", nu0);
+  c.family = "monochromatic";
   c.regime = "closed-form";
   c.draw = [sp](RandomGenerator &rg) { return sp->get_random_frequency(rg, 0.); };
   c.numin = c.numax = nu0;
@@ -444,6 +472,7 @@ static Case mono_case(double nu0, Owned &own) {
   // step distribution at nu0: every u is admissible for nu == nu0, none otherwise
   c.cdf_lo = [nu0](double nu) { return nu == nu0 ? 0.L : 2.L; };
   c.cdf_hi = [nu0](double nu) { return nu == nu0 ? 1.L : -1.L; };
+  c.slack = [](double) { return 0.L; };
   c.tol_text = "exact";
   return c;
 }
@@ -531,22 +560,47 @@ int main(int argc, char **argv) {
     return R.finish(A);
   }
   size_t ncases = 0;
-  for (const Case &c : cases) {
+  bool cut = false;
+  std::string percase;
+#pragma omp parallel for schedule(dynamic, 1)
+  for (size_t ic = 0; ic < cases.size(); ++ic) {
     if (R.out_of_time()) {
-      R.hit_deadline(fmt("samplers: %zu of %zu spectra done", ncases, cases.size()));
-      break;
+#pragma omp critical
+      cut = true;
+      continue;
     }
-    run_case(c, A, R, tot);
-    ++ncases;
+    Totals t;
+    run_case(cases[ic], A, R, t);
+#pragma omp critical
+    {
+      percase += fmt("%s\"%s:%s\": {\"u\": %llu, \"slack_used\": %.3g, \"near\": %llu, \"bad\": %llu}", percase.empty() ? "" : ", ",
+                     cases[ic].name.c_str(), cases[ic].regime.c_str(), (unsigned long long)t.evals, t.max_slack_used,
+                     (unsigned long long)t.near, (unsigned long long)(t.range_bad + t.mono_bad + t.cdf_bad));
+      ++ncases;
+      tot.evals += t.evals;
+      tot.nontrivial += t.nontrivial;
+      if (t.range_bad + t.mono_bad + t.cdf_bad == 0) { // slack statistics only over clean cases
+        tot.near += t.near;
+        tot.max_slack_used = std::max(tot.max_slack_used, t.max_slack_used);
+      }
+      tot.range_bad += t.range_bad;
+      tot.mono_bad += t.mono_bad;
+      tot.cdf_bad += t.cdf_bad;
+      tot.max_excess = std::max(tot.max_excess, t.max_excess);
+    }
   }
+  if (cut)
+    R.hit_deadline(fmt("samplers: %zu of %zu spectra done", ncases, cases.size()));
   R.evaluations = tot.evals;
   R.nontrivial = tot.nontrivial;
   R.set("spectra_cases", (double)ncases);
+  R.set_json("per_case", "{" + percase + "}");
   R.set("range_violations", (double)tot.range_bad);
   R.set("monotonicity_violations", (double)tot.mono_bad);
   R.set("cdf_violations", (double)tot.cdf_bad);
   R.set("cdf_max_excess_over_admissible_interval_width", tot.max_excess);
-  R.set("u_values_within_1pc_of_an_interval_end", (double)tot.near);
+  R.set("accepted_cases_using_more_than_10pc_of_the_slack", (double)tot.near);
+  R.set("accepted_cases_max_fraction_of_slack_used", tot.max_slack_used);
   R.rule = "every spectrum case (Planck temperatures, uniform, monochromatic, masked Planck, He two-photon, H and He Lyman "
            "continuum x temperature alphabet inside and outside their temperature table) x u alphabet (log grid 1e-10..1, "
            "linear grid, every table CDF value and its two neighbouring doubles, 1e-10, 1-2^-48, 1-2^-53) fed through a "
